@@ -135,6 +135,9 @@ import BGV
 #print axioms BGV.C07_subLoop_oor_head
 #print axioms BGV.C07_rejected_unchanged
 #print axioms BGV.C07_history
+#print axioms BGV.C07_pathTo_oor
+#print axioms BGV.C07_pathTo_search_oor
+#print axioms BGV.C07_pathTo3_oor
 #print axioms BGV.C07_search_source_oor
 #print axioms BGV.C07_geodesics_oor
 #print axioms BGV.C07_dijkstra_oor
@@ -174,6 +177,10 @@ import BGV
 #print axioms BGV.C10_und_getSubgraphWithRemap
 
 -- C11
+#print axioms BGV.C11_findSourceVertex_bfs
+#print axioms BGV.C11_findSourceVertex_allpred
+#print axioms BGV.C11_pathTo3_eq
+#print axioms BGV.C11_pathTo_geodesics
 #print axioms BGV.C11_findVertexPredecessors
 #print axioms BGV.C11_entry
 #print axioms BGV.C11_findAllVertexPredecessors
